@@ -8,6 +8,7 @@ import (
 	"sort"
 	"strconv"
 
+	"vh/recgen"
 	"vh/recmap"
 	"vh/rectxn"
 	"vh/recwire"
@@ -22,6 +23,7 @@ func cmdWireCases(args []string) error {
 	casesFile := fs.String("cases", "cases.ndjson", "one case per line")
 	out := fs.String("o", "trace.ndjson", "output trace")
 	first := fs.Int("first-id", 0, "id of the first case")
+	repo := fs.String("repo", "/repo", "the library the generated code is built against")
 	skip := fs.Int("skip", 0, "transaction cases with an id below this are skipped (resuming after a crash)")
 	_ = fs.Parse(args)
 	cf, err := os.Open(*casesFile)
@@ -66,8 +68,20 @@ func cmdWireCases(args []string) error {
 				ev = recmap.MapCase(mc)
 			}
 		}
+		if c.Mode == "gen" {
+			var gc struct {
+				recgen.Case
+				Extended  bool `json:"extended"`
+				EnumTypes bool `json:"enumTypes"`
+			}
+			if err := json.Unmarshal(sc.Bytes(), &gc); err != nil {
+				return err
+			}
+			ev = recgen.Run(gc.Case, gc.Extended, gc.EnumTypes, *repo)
+			ev["schema"] = gc.Case.ID
+		}
 		switch c.Mode {
-		case "mtype", "map":
+		case "mtype", "map", "gen":
 		case "rt":
 			ev = recwire.RoundTrip(c)
 		case "dec":
